@@ -12,4 +12,5 @@ Extraction "model.ml"
   m_bx_encode m_bx_decode m_bx_encoded_len m_bx_decoded_len m_bx_valid_len m_bx_obl
   m_uint32n m_shuffle_N m_fisher_yates_N
   m_sign_attached_stream m_sign_detached m_verify_stream m_verify_all m_verify_detached m_mp_read m_mp_encode
-  m_seal_stream m_open_stream m_signcrypt_seal_stream m_signcrypt_open_stream.
+  m_seal_stream m_open_stream m_signcrypt_seal_stream m_signcrypt_open_stream
+  m_armor62_seal m_dearmor m_check_armor62 m_make_frame m_binary_slice m_armored_prefix m_header_marker m_footer_marker.
